@@ -333,6 +333,29 @@ def check_class(name, rng, seed, n_samples=None, stats=None):
             old = point_value(pg_old, P)
             P[id(g2)] = np.zeros(len(xv)) if old is None else old
         order.append("oracle-requery")
+        # ... and a query at a point whose decomposition differs from a recorded one by a coefficient of 2^-40: a
+        # DIFFERENT point, which must get its own sample (seed C03-12: recorded points identified up to np.allclose)
+        if name not in ("ConvexIndicatorFunction", "ConvexSupportFunction") and rng.random() < 0.5 \
+                and "oracle-near-point" not in order:
+            leafs = [q_ for q_ in list(px.decomposition_dict) + list(pg_old.decomposition_dict) if id(q_) in P]
+            if leafs:
+                q_ = leafs[0]
+                near = px + 2.0 ** -40 * q_
+                xn = xv + 2.0 ** -40 * P[id(q_)]
+                if np.any(xn != xv):
+                    n0 = len(func.list_of_points)
+                    gn, fn_ = func.oracle(near)
+                    if len(func.list_of_points) != n0 + 1 or any(fn_ is r[2] for r in recs):
+                        return dict(kind="oracle-merges-two-different-points", cls=name, params=params, world_seed=seed,
+                                    samples=order, coefficient="2^-40")
+                    try:
+                        g_true, f_true = member.oracle(CW.CP(xn))
+                    except Exception:
+                        return dict(skipped="member has no oracle at the perturbed point")
+                    if gn.get_is_leaf() and id(gn) not in P:
+                        P[id(gn)] = np.asarray(g_true.v, float)
+                    F[id(fn_)] = float(f_true.v)
+                    order.append("oracle-near-point")
     if name == "LinearOperator":
         for k in range(rng.choice([0, 1, 2, 3])):
             u = np.array([rng.choice([-2, -1, 0.5, 1, 3]) for _ in range(dim)], float)
